@@ -43,7 +43,9 @@ mod verif_replay_namematch {
     /// bounded-exhaustive: every descriptor and every name over {a, b, '.', 'ȟ'} up to 4 characters
     #[test]
     fn verif_replay_namematch_exhaustive_small() {
-        let strings = all_strings(&['a', 'b', '.', '\u{21f}'], 4);
+        // thorough tier: strings up to 5 characters (1,365 x 1,365 pairs) instead of 4 (341 x 341)
+        let depth = if std::env::var("VERIF_THOROUGH").is_ok() { 5 } else { 4 };
+        let strings = all_strings(&['a', 'b', '.', '\u{21f}'], depth);
         for d in &strings {
             if d.is_empty() {
                 continue;
